@@ -106,6 +106,14 @@ CHECKS = {
         ],
         "assumptions": ["randomness is the seeded deterministic generator, so a reuse is reproduced bit for bit; statistical quality of the generators is out of scope"],
     },
+    "C12": {
+        "level": "model_checking",
+        "units": [
+            unit("c12-model", "rangeproof", ["zz_verif_c12_test.go"], "^TestVerifC12", shards={"quick": 8, "thorough": 16}),
+            unit("c12-crypto", "root", ["zz_verif_c12_test.go"], "^TestVerifC12", shards={"quick": 12, "thorough": 16}),
+        ],
+        "assumptions": [],
+    },
     "_FIX": {
         "level": "other",
         "units": [unit("genfix", "root", [], "^TestVerifGenFixtures$", env={"VERIF_GENFIX": "1"}, timeout=1800)],
